@@ -10,9 +10,9 @@ from harness.drivers import c02
 chk = Check("C02X")
 def case(name, cfg, backend="einsum", cplx=True):
     return {"id": name, "k": 0, "cfg": cfg, "backend": backend, "draw": 1, "cplx": cplx, "seed": 1, "derived": {}}
-F = {"ity": "int", "dt": "same", "ct": "list", "rep": 1, "me": 0, "e2": 0, "mf": "list"}          # argument forms
-md = dict({"op": "mode_dot", "shape": [2, 3, 2], "mode": 1, "vec": False, "J": 2, "tr": True, "bad": False}, ity="i64", dt="int_f", ct="list", sc=[0, 1, 0, 0], rep=2, me=0, e2=0, mf="list")
-kr = dict({"op": "khatri_rao", "rows": [2, 3], "R": 2, "skip": 0, "w": True, "mask": True, "bad": False}, ity="i32", dt="f32_f64", ct="tuple", sc=[0, 2, 0, 0], rep=1, me=0, e2=0, mf="list")
+F = {"ity": "int", "dt": "same", "ct": "list", "rep": 1, "me": 0, "e2": 0, "mf": "list", "cf": "mixed", "ep": "dispatch", "alias": False, "pre": "none", "nz": False, "rsr": True}          # argument forms
+md = dict({"op": "mode_dot", "shape": [2, 3, 2], "mode": 1, "vec": False, "J": 2, "tr": True, "bad": False}, ity="i64", dt="int_f", ct="list", sc=[0, 1, 0, 0], rep=2, me=0, e2=0, mf="list", cf="pos", ep="direct", alias=True, pre="failed", nz=True, rsr=True)
+kr = dict({"op": "khatri_rao", "rows": [2, 3], "R": 2, "skip": 0, "w": True, "mask": True, "bad": False}, ity="i32", dt="f32_f64", ct="tuple", sc=[0, 2, 0, 0], rep=1, me=0, e2=0, mf="list", cf="kw", ep="dispatch", alias=False, pre="failed", nz=True, rsr=True)
 td = {"op": "tensordot", "s1": [2, 3], "s2": [2, 3, 3], "m1": [], "m2": [], "b1": [-1, -2], "b2": [-1, -3], "mint": False, "bint": False, "neg": "b", "sc": [0, 0, 0, 0], **dict(F, mf="gen")}
 sk = {"op": "sampled_kr", "rows": [2, 3, 2], "R": 2, "skip": 1, "ns": 3, "given": False, "idt": "rng", "sc": [0, 0, 0, 0, 0], **F}
 bad = {"op": "mode_dot", "shape": [2, 3], "mode": 0, "vec": True, "J": 0, "tr": False, "bad": True, "sc": [0, 0, 0, 0], **F}
@@ -45,6 +45,7 @@ mut("second_call_raised", "good_mode_dot", "Repeat", lambda e: e["outs"][1].upda
 mut("call_missing", "good_mode_dot", "Calls", lambda e: e["outs"].pop())
 mut("cfg_magnitude", "good_tensordot", "InDomain", lambda e: e["cfg"].__setitem__("e2", 7))
 mut("cfg_mode_form", "good_tensordot", "InDomain", lambda e: e["cfg"].__setitem__("mf", "deque"))
+mut("cfg_call_form", "good_tensordot", "InDomain", lambda e: e["cfg"].__setitem__("cf", "star"))
 mut("td_neg_flag", "good_tensordot", "InDomain", lambda e: e["cfg"].__setitem__("neg", "none"))
 mut("td_transposed", "good_tensordot", "Value", lambda e: e["outs"][0].__setitem__("re", e["outs"][0]["re"][::-1]))
 mut("sk_row", "good_sampled_kr", "Rows", lambda e: e["outs"][0]["rows"].__setitem__(0, (e["outs"][0]["rows"][0] + 1) % 4))
